@@ -215,14 +215,25 @@ def with_commit_graph(g, backend):
         g.repo.object_store.write_commit_graph()
     elif backend == "disk-cg-git":
         cgit.git(["commit-graph", "write", "--reachable"], cwd=g.path)
+    elif backend == "disk-cg-git-split":
+        # a split chain of two layers as `git fetch`/`git maintenance` leave it: the older half of the commits in the base
+        # layer, the rest on top (parent positions in the top layer count across the whole chain)
+        half = max(1, g.n // 2)
+        cgit.git(["commit-graph", "write", "--split=no-merge", "--stdin-commits"], cwd=g.path, input=b"".join(h + b"\n" for h in g.ids[:half]))
+        cgit.git(["commit-graph", "write", "--split=no-merge", "--stdin-commits"], cwd=g.path, input=b"".join(h + b"\n" for h in g.ids))
     else:
         raise HarnessError(f"unknown backend {backend!r}")
     gf = os.path.join(g.path, "objects", "info", "commit-graph")
-    if not os.path.exists(gf):
+    if backend == "disk-cg-git-split":
+        chain = os.path.join(g.path, "objects", "info", "commit-graphs", "commit-graph-chain")
+        if not os.path.exists(chain) or os.path.exists(gf):
+            raise HarnessError(f"{backend}: git did not write a split chain")
+        g.split_layers = len(open(chain).read().split())
+    elif not os.path.exists(gf):
         raise HarnessError(f"{backend}: no commit-graph file was written")
     g.repo.close()
     r = Repo(g.path)
-    if r.object_store.get_commit_graph() is None:
+    if backend != "disk-cg-git-split" and r.object_store.get_commit_graph() is None:
         raise HarnessError(f"{backend}: dulwich does not load the commit-graph file")
     g2 = Graph.__new__(Graph)
     g2.__dict__.update(g.__dict__)
@@ -892,7 +903,7 @@ def _dag_strategy(max_n):
         pick,
     )
     return st.tuples(st.sampled_from(_KINDS), st.sampled_from(_CLOCKS), nodes,
-                     st.lists(gq, min_size=3, max_size=8), st.lists(wq, min_size=2, max_size=5), st.integers(0, 3))
+                     st.lists(gq, min_size=3, max_size=8), st.lists(wq, min_size=2, max_size=5), st.integers(0, 4))
 
 
 def _tipward(n, v):
@@ -1008,7 +1019,7 @@ def execute_generated(ctx, value, disk):
             ctx.case(("D", parents, times, "walk", repr(sorted(q.items()))), nontrivial=g.skew or g.merge,
                      labels=_walk_labels(g, q) + ["git-differential"])
         if cgsel:
-            backend = "disk-cg-dulwich" if cgsel & 1 else "disk-cg-git"
+            backend = "disk-cg-git-split" if cgsel == 4 else "disk-cg-dulwich" if cgsel & 1 else "disk-cg-git"
             g2 = with_commit_graph(g, backend)
             g = g2
             for (op, args), before in zip(gq, answers):
@@ -1042,6 +1053,8 @@ def judge_commit_graph(ctx, g2, kind, q, before, check="commit-graph"):
         nt = g2.skew or g2.merge
         qd = dict(q=_walk_opts(q))
         same = after == before
+    if getattr(g2, "split_layers", None):
+        labels.append("commit-graph:split-chain-layers=%s" % (g2.split_layers if g2.split_layers < 3 else ">=3"))
     ctx.case(("CG", g2.backend, g2.parents, g2.times, repr(q)), nontrivial=nt, labels=labels)
     if wrong_after and (not wrong_before or not same):
         case = g2.base_case()
